@@ -112,9 +112,19 @@ FirstBad(rs) == IF \E i \in 1..Len(rs) : ~IsOk(rs[i])
                 THEN rs[CHOOSE i \in 1..Len(rs) : ~IsOk(rs[i]) /\ \A j \in 1..(i-1) : IsOk(rs[j])]
                 ELSE None
 
+\* ---------- slice merge layout (reifySliceMerge): which result slot comes from where ----------
+\* default: index-wise into the old elements, the longer tail kept; replace: the new length, still
+\* merged INTO the old elements of the same index; append: old then new; prepend: new then old
+SliceLayout(pol, ol, al) ==
+  CASE pol = "replace" -> [i \in 1..al |-> [src |-> "new", j |-> i, base |-> IF i <= ol THEN i ELSE 0]]
+    [] pol = "append"  -> [i \in 1..(ol + al) |-> IF i <= ol THEN [src |-> "old", k |-> i] ELSE [src |-> "new", j |-> i - ol, base |-> 0]]
+    [] pol = "prepend" -> [i \in 1..(ol + al) |-> IF i <= al THEN [src |-> "new", j |-> i, base |-> 0] ELSE [src |-> "old", k |-> i - al]]
+    [] OTHER -> [i \in 1..Max(ol, al) |-> IF i <= al THEN [src |-> "new", j |-> i, base |-> IF i <= ol THEN i ELSE 0]
+                                           ELSE [src |-> "old", k |-> i]]
+
 \* ---------- field unpack by type ----------
 \* ty in {"I","PI","S","PS","LI","LS","MI","MS"}; old: Go value; parent: config node; name; ppath: parent's path
-UnpackField(ty, vs, old, parent, name, ppath, D) ==
+UnpackField(ty, vs, old, parent, name, ppath, D, pol) ==
   LET present == name \in DOMAIN parent.d
       val == IF present THEN parent.d[name] ELSE None
       spath == Append(ppath, name)
@@ -143,30 +153,31 @@ UnpackField(ty, vs, old, parent, name, ppath, D) ==
     [] ty = "LI" ->
          IF absent THEN (IF RecValid(vs, old, D) THEN Ok(old) ELSE Err(spath))
          ELSE LET arr == CastArr(val)
-                  n == Max(Len(old.xs), Len(arr))
-                  rs == [i \in 1..n |->
-                           IF i <= Len(arr)
-                           THEN (IF IsNilC(arr[i]) THEN Ok(IntV(0))
-                                 ELSE ReifyInt(arr[i], vs, IF val.k = "n" THEN Append(spath, ToString(i-1)) ELSE spath, D))
-                           ELSE Ok(old.xs[i])]
+                  lay == SliceLayout(pol, Len(old.xs), Len(arr))
+                  rs == [i \in 1..Len(lay) |->
+                           IF lay[i].src = "new"
+                           THEN (IF IsNilC(arr[lay[i].j]) THEN Ok(IntV(0))        \* a nil entry zeroes a primitive slot
+                                 ELSE ReifyInt(arr[lay[i].j], vs, IF val.k = "n" THEN Append(spath, ToString(lay[i].j - 1)) ELSE spath, D))
+                           ELSE Ok(old.xs[lay[i].k])]
                   bad == FirstBad(rs) IN
               IF bad # None THEN bad
-              ELSE LET res == SliceV(FALSE, [i \in 1..n |-> rs[i].ok]) IN
+              ELSE LET res == SliceV(FALSE, [i \in 1..Len(lay) |-> rs[i].ok]) IN
                    IF RunV(vs, res, D) THEN Ok(res) ELSE Err(spath)
     [] ty = "LS" ->
          IF absent THEN (IF RecValid(vs, old, D) THEN Ok(old) ELSE Err(spath))
          ELSE LET arr == CastArr(val)
-                  n == Max(Len(old.xs), Len(arr))
-                  epath(i) == IF val.k = "n" THEN Append(spath, ToString(i-1)) ELSE spath
-                  rs == [i \in 1..n |->
-                           IF i <= Len(arr)
-                           THEN (LET sub == AsCfgNode(arr[i])
-                                     base == IF i <= Len(old.xs) THEN old.xs[i] ELSE ZeroIn IN
-                                 IF sub = None THEN Err(epath(i)) ELSE ReifyIn(base, sub, epath(i), epath(i), D))
-                           ELSE (IF RecValid({}, old.xs[i], D) THEN Ok(old.xs[i]) ELSE Err(spath))]
+                  lay == SliceLayout(pol, Len(old.xs), Len(arr))
+                  epath(j) == IF val.k = "n" THEN Append(spath, ToString(j-1)) ELSE spath
+                  rs == [i \in 1..Len(lay) |->
+                           IF lay[i].src = "new"
+                           THEN (LET sub  == AsCfgNode(arr[lay[i].j])
+                                     base == IF lay[i].base = 0 THEN ZeroIn ELSE old.xs[lay[i].base] IN
+                                 IF sub = None THEN Err(epath(lay[i].j)) ELSE ReifyIn(base, sub, epath(lay[i].j), epath(lay[i].j), D))
+                           \* elements carried over must still validate ("UncheckedCarriedOver": they are skipped)
+                           ELSE (IF "UncheckedCarriedOver" \in D \/ RecValid({}, old.xs[lay[i].k], D) THEN Ok(old.xs[lay[i].k]) ELSE Err(spath))]
                   bad == FirstBad(rs) IN
               IF bad # None THEN bad
-              ELSE LET res == SliceV(FALSE, [i \in 1..n |-> rs[i].ok]) IN
+              ELSE LET res == SliceV(FALSE, [i \in 1..Len(lay) |-> rs[i].ok]) IN
                    IF RunV(vs, res, D) THEN Ok(res) ELSE Err(spath)
     [] ty = "MI" ->
          IF absent THEN (IF RecValid(vs, old, D) THEN Ok(old) ELSE Err(spath))
@@ -204,12 +215,12 @@ UnpackField(ty, vs, old, parent, name, ppath, D) ==
                         IF RunV(vs, res, D) THEN Ok(res) ELSE Err(spath)
 
 \* ---------- outer struct: G int `config:"g"`, F <ty> `config:"f" validate:vs`, H int `config:"h"` ----------
-Unpack(ty, vs, oldF, cfg, D) ==
-  LET rg == UnpackField("I", {}, IntV(1), cfg, "g", <<>>, D) IN
+Unpack(ty, vs, oldF, cfg, D, pol) ==
+  LET rg == UnpackField("I", {}, IntV(1), cfg, "g", <<>>, D, pol) IN
   IF ~IsOk(rg) THEN rg
-  ELSE LET rf == UnpackField(ty, vs, oldF, cfg, "f", <<>>, D) IN
+  ELSE LET rf == UnpackField(ty, vs, oldF, cfg, "f", <<>>, D, pol) IN
        IF ~IsOk(rf) THEN rf
-       ELSE LET rh == UnpackField("I", {}, IntV(1), cfg, "h", <<>>, D) IN
+       ELSE LET rh == UnpackField("I", {}, IntV(1), cfg, "h", <<>>, D, pol) IN
             IF ~IsOk(rh) THEN rh
             ELSE Ok([g |-> rg.ok, f |-> rf.ok, h |-> rh.ok])
 
